@@ -80,3 +80,37 @@ pub fn sort_unstable_pairs(v: &mut Vec<(&String, &String)>)
         pv(final(v)@).to_multiset() == pv(old(v)@).to_multiset(),
         vstd::relations::sorted_by(pv(final(v)@), |a: Pair, b: Pair| pair_le(a, b)),
 { unimplemented!() }
+
+/// `s.to_lowercase()` (str::to_lowercase is Unicode-aware; on ASCII input it is ASCII lower-casing, other code points are not constrained here)
+#[verifier::external_body]
+pub fn str_to_lowercase(s: &str) -> (r: String)
+    ensures all_ascii(s.spec_bytes()) ==> str_bytes(r@) == lower(s.spec_bytes())
+{ unimplemented!() }
+
+/// `map.entry(key).or_default().push(value)` for HashMap<String, Vec<Vec<u8>>>
+#[verifier::external_body]
+pub fn hashmap_entry_or_default_push(m: &mut HashMap<String, Vec<Vec<u8>>>, key: String, value: Vec<u8>)
+    ensures
+        old(m)@.contains_key(key) ==> final(m)@.dom() == old(m)@.dom() && final(m)@[key]@ == old(m)@[key]@.push(value)
+            && forall|k: String| k != key && old(m)@.contains_key(k) ==> final(m)@[k] == old(m)@[k],
+        !old(m)@.contains_key(key) ==> final(m)@.dom() == old(m)@.dom().insert(key) && final(m)@[key]@ == seq![value]
+            && forall|k: String| old(m)@.contains_key(k) ==> final(m)@[k] == old(m)@[k],
+{ unimplemented!() }
+
+/// `Vec<u8>::extend(&[u8])` / `extend(&Vec<u8>)` (the `Extend<&'a T>` impl): appends the referenced bytes in order
+#[verifier::external_body]
+pub fn vec_extend_bytes(v: &mut Vec<u8>, b: &[u8])
+    ensures final(v)@ == old(v)@ + b@
+{ unimplemented!() }
+
+/// `values.iter().enumerate()` materialised
+#[verifier::external_body]
+pub fn slice_enumerate<T>(s: &Vec<T>) -> (r: Vec<(usize, &T)>)
+    ensures r@.len() == s@.len(), forall|i: int| 0 <= i < r@.len() ==> (#[trigger] r@[i]).0 == i && *r@[i].1 == s@[i]
+{ unimplemented!() }
+
+/// `v.join(sep).as_bytes()` for Vec<String>
+#[verifier::external_body]
+pub fn strings_join_str(v: &Vec<String>, sep: &str) -> (r: String)
+    ensures str_bytes(r@) == join(vals_bytes(v@), sep.spec_bytes())
+{ unimplemented!() }
